@@ -34,9 +34,12 @@ FIELD_MAX = {}
 
 
 class UB:
-    def __init__(self, fn, accessors, enum_max=None, tables=None, param_ub=None, row_leaf=None):
+    def __init__(self, fn, accessors, enum_max=None, tables=None, param_ub=None, row_leaf=None, helpers=None, param_const=None):
         self.fn = fn
         self.row_leaf = row_leaf      # optional: values of `op_data.<field>` leaves for ONE table row (conditions over them are folded)
+        self.helpers = helpers or {}  # qualified name -> [Fn] of unit-local helpers: a bool helper on its true edge bounds its arguments
+        self.param_const = param_const or {}   # did of a parameter -> its known value (helper instantiated for one call site)
+        self._helper_cache = {}
         self.m = None
         self.acc = accessors          # qualified name -> Fn
         self.enum_max = enum_max or {}
@@ -79,6 +82,19 @@ class UB:
 
         def edge_fx(b, si, atom, holds):
             x = fn.e(atom)
+            if x and x["k"] in ("call", "mcall") and holds and x.get("callee") in self.helpers and x.get("args"):
+                out = []
+                for h in self.helpers[x["callee"]]:
+                    if len(h.params) != len(x["args"]) or (h.raw.get("ret") or "") != "bool" or h is fn:
+                        continue
+                    for j, a in enumerate(x["args"]):
+                        d = any_root(a)
+                        if d is None or "&" in h.params[j]["ty"] or "*" in h.params[j]["ty"]:
+                            continue
+                        bnd = self.helper_true_bound(h, j, x["args"])
+                        if bnd is not None:
+                            out.append(("ub", d, bnd))
+                return out
             if not (x and x["k"] == "binop" and x["op"] in ("<", "<=", ">", ">=")):
                 return ()
             if x["op"] in ("<", "<="):
@@ -110,6 +126,7 @@ class UB:
                 if d is not None:
                     out.append(("ub", d, lim))
             return out
+        self._edge_fx = edge_fx
         allf = {}
         for blk in fn.blocks.values():
             for el in blk["elems"]:
@@ -135,6 +152,73 @@ class UB:
             return None
         return Must(fn, elem_fx, edge_fx)
 
+    def const_of(self, eid):
+        """value of an expression that is constant here: literal / compiler-evaluated, a field of the one table row, a parameter with a
+        known value, an immutable local whose initialiser is constant; None otherwise"""
+        from . import exprfold
+        fn = self.fn
+
+        def leaf(txt, node):
+            if isinstance(node.get("cv"), int):
+                return node["cv"]
+            if node.get("k") == "ref" and node.get("did") in self.param_const:
+                return self.param_const[node["did"]]
+            if node.get("k") == "ref" and node.get("dk") == "local" and node.get("did") in self.inits and not self.assigned.get(node.get("did")):
+                return F.fold(fn, self.inits[node["did"]])
+            if self.row_leaf is not None:
+                return self.row_leaf(txt, node)
+            raise exprfold.Unknown()
+        F = exprfold.Folder({}, leaf, 64)
+        try:
+            return F.fold(fn, eid)
+        except (exprfold.Unknown, RecursionError):
+            return None
+
+    def helper_true_bound(self, h, j, args):
+        """upper bound of the j-th argument on the edge where the bool helper h returned true (None: no bound)"""
+        consts = {}
+        for i, a in enumerate(args):
+            if i < len(h.params):
+                v = self.const_of(a)
+                if v is not None:
+                    consts[h.params[i]["did"]] = v
+        key = (id(h), j, tuple(sorted(consts.items())))
+        if key in self._helper_cache:
+            return self._helper_cache[key]
+        self._helper_cache[key] = None
+        sub = UB(h, self.acc, self.enum_max, self.tables, None, None, self.helpers, consts)
+        pdid = h.params[j]["did"]
+        ref = next((i for i, x in h.ex.items() if x["k"] == "ref" and x.get("did") == pdid), None)
+        if ref is None:
+            return None
+        bounds = []
+        for b, idx, r in h.return_sites():
+            val = h.e(r).get("val")
+            if val is None:
+                continue
+            cv = sub.const_of(val)
+            if cv is not None and not cv:
+                continue                      # `return false`
+            bnd = sub.ub(ref, r)
+            if cv is None:
+                # `return <condition>`: true only when the condition holds
+                stack = [val]
+                while stack:
+                    t = h.strip(stack.pop())
+                    tx = h.e(t)
+                    if tx is not None and tx["k"] == "binop" and tx["op"] == "&&":
+                        stack += [tx["lhs"], tx["rhs"]]
+                        continue
+                    for f_ in sub._edge_fx(0, 0, t, True):
+                        if f_[0] == "ub" and f_[1] == pdid:
+                            bnd = min(bnd, f_[2])
+            bounds.append(bnd)
+        res = max(bounds) if bounds else None
+        if res is not None and res >= (1 << 63):
+            res = None
+        self._helper_cache[key] = res
+        return res
+
     def ub(self, eid, at, depth=0):
         fn = self.fn
         x = fn.e(eid)
@@ -158,6 +242,8 @@ class UB:
         if k == "ref":
             if isinstance(x.get("cv"), int) and x["cv"] >= 0:
                 return x["cv"]
+            if x.get("did") in self.param_const:
+                return self.param_const[x["did"]]
             best = tmax(x.get("ty"))
             if x.get("dk") == "parm":
                 for pi, p in enumerate(fn.params):
@@ -230,13 +316,10 @@ class UB:
         if k == "unop" and x["op"] == "!":
             return 1
         if k == "cond":
-            if getattr(self, "row_leaf", None) is not None:
-                from . import exprfold
-                try:
-                    cv_ = exprfold.Folder({}, self.row_leaf, 64).fold(fn, x["c"])
+            if getattr(self, "row_leaf", None) is not None or getattr(self, "param_const", None):
+                cv_ = self.const_of(x["c"])
+                if cv_ is not None:
                     return self.ub(x["a"] if cv_ else x["b"], at, depth + 1)
-                except exprfold.Unknown:
-                    pass
             return max(self.ub(x["a"], at, depth + 1), self.ub(x["b"], at, depth + 1))
         if k in ("mcall", "call"):
             if x.get("cn") == "get_field" and x.get("targs"):
@@ -272,6 +355,7 @@ class UB:
                         sub = UB.__new__(UB)
                         sub.fn, sub.acc, sub.enum_max, sub.assigned, sub.inits, sub._acc_cache = g, self.acc, self.enum_max, {}, {}, self._acc_cache
                         sub.tables, sub.param_ub, sub.field_max = self.tables, {}, FIELD_MAX
+                        sub.row_leaf, sub.helpers, sub.param_const, sub._helper_cache = None, {}, {}, {}
                         sub.m = type("M", (), {"before": staticmethod(lambda e: frozenset())})()
                         self._acc_cache[key] = min(tmax(x.get("ty")), sub.ub(g.e(rets[0][2])["val"], None, depth + 1))
                 return min(self._acc_cache[key], self.enum_max.get(x.get("ty"), 1 << 64))
